@@ -5,6 +5,7 @@ import VM.Driver.ValuesFam
 import VM.Driver.HelpersFam
 import VM.Driver.SimpleFam
 import VM.Driver.PostFam
+import VM.Driver.SpecFam
 open Lean VM.Driver
 
 def dispatch (j : Json) : Json :=
@@ -16,6 +17,7 @@ def dispatch (j : Json) : Json :=
   | "helpers" => runHelpersCase j
   | "simple" => runSimpleCase j
   | "post" => runPostCase j
+  | "spec" | "specmut" => runSpecCase j
   | "conc" | "rexp" => Json.mkObj [("model", Json.str "theorems only: outcomes are compared with solo runs / Go regexp by the harness")]
   | f => Json.mkObj [("bad", Json.str s!"unknown family {f}")]
 
